@@ -76,7 +76,7 @@ def landmarks(prog):
             body = w.child("body")
             if cond is None or body is None:
                 continue
-            if not any(x.k == "CallExpr" and x.j.get("callee") == "__ctype_b_loc" for x in cond.walk()):
+            if not any(x.k == "CallExpr" and x.j.get("callee") in ("__ctype_b_loc", "isspace") for x in cond.walk()):
                 continue
             b2 = body.strip()
             incs = [x for x in body.walk() if x.k == "UnaryOperator" and x.j.get("op") == "++"]
